@@ -55,28 +55,43 @@ def fd_system(chk):
            "smaller than the stencil are refused" if ok_o else "number of stencil points is not order+1", file=U.ADV, func=f"{CLS}.__init__")
 
 
+THETA_TABLE_TEMPLATE = """
+for k in range(eta_grid[2].size):
+    for i, l in enumerate(self._shifts):
+        thetaVals[(k + l) % n, i, :] = fieldline(eta_grid[1], self._dz * l, iota, r, R0)
+"""
+
+
 def theta_table(chk):
     """_getThetaVals: column i_l of the table holds the field-line angle for shift l"""
+    from ..core import find, same_expr, contains
     fn = chk.func(U.ADV, f"{CLS}._getThetaVals")
-    loops = [n for n in ast.walk(fn) if isinstance(n, ast.For)]
+    b = find(fn, THETA_TABLE_TEMPLATE)
+    okn = b is not None and (contains(fn, "n = eta_grid[2].size", bind={"n": b["n"]}) if "n" in b else True)
+    ok, why = (True, "column i of the table = angle reached from each theta node by following the field line over shift_i cells "
+               "(dz x shift); identical for every row") if b is not None and okn else (None, "table fill not recognised")
     asg = [n for n in ast.walk(fn) if isinstance(n, ast.Assign) and isinstance(n.targets[0], ast.Subscript)
            and src(n.targets[0].value) == "thetaVals"]
-    ok = False
-    why = "table fill not recognised"
-    if len(asg) == 1 and len(loops) == 2:
+    if ok is None and len(asg) == 1 and isinstance(asg[0].targets[0].slice, ast.Tuple) and len(asg[0].targets[0].slice.elts) == 3:
         a = asg[0]
-        inner = [l for l in loops if a in l.body]
-        lv = inner[0] if inner else None
-        if lv is not None and src(lv.iter).replace(" ", "") == "enumerate(self._shifts)" and isinstance(lv.target, ast.Tuple):
+        lv = parent(a)
+        if isinstance(lv, ast.For) and isinstance(lv.target, ast.Tuple) and len(lv.target.elts) == 2 and isinstance(parent(lv), ast.For) \
+                and isinstance(parent(lv).target, ast.Name):
             col, shift = (e.id for e in lv.target.elts)
-            key = [src(x).replace(" ", "") for x in a.targets[0].slice.elts]
-            outer = [l for l in loops if l is not lv][0]
-            kvar = outer.target.id if isinstance(outer.target, ast.Name) else None
-            val = src(a.value).replace(" ", "").replace("\n", "")
-            ok = key[1] == col and key[2] == ":" and key[0] in (f"({kvar}+{shift})%n", f"({shift}+{kvar})%n") and \
-                val == f"fieldline(eta_grid[1],self._dz*{shift},iota,r,R0)"
-            why = ("column i of the table = angle reached from each theta node by following the field line over shift_i cells "
-                   "(dz x shift); identical for every row") if ok else f"table entry {key} = {val}"
+            kvar = parent(lv).target.id
+            row, cidx, rest = a.targets[0].slice.elts
+            bnd = {"k": kvar, "l": shift, "i": col}
+            diffs = []
+            if not same_expr(lv.iter, "enumerate(self._shifts)"):
+                diffs.append(f"the columns are generated from `{src(lv.iter)}` instead of enumerate(self._shifts), the shifts the weights and the scatter use")
+            if not (isinstance(row, ast.BinOp) and isinstance(row.op, ast.Mod) and same_expr(row.left, "k + l", bind=bnd)):
+                diffs.append(f"row index `{src(row)}` is not (row + shift) mod n")
+            if not same_expr(cidx, "i", bind=bnd):
+                diffs.append(f"column index `{src(cidx)}` is not the position of the shift")
+            if not same_expr(a.value, "fieldline(eta_grid[1], self._dz * l, iota, r, R0)", bind=bnd):
+                diffs.append(f"entry `{src(a.value)}` is not fieldline(theta nodes, dz x shift, iota, r, R0)")
+            if diffs:
+                ok, why = False, "; ".join(diffs)
     chk.ob("F7-theta-table", asg[0] if asg else fn, "thetaVals[(k+l) % n, i, :] = fieldline(theta, dz*l, iota, r, R0)", ok, why,
            file=U.ADV, func=f"{CLS}._getThetaVals")
 
@@ -115,11 +130,14 @@ def regimes(chk):
 def gradient_formula(chk, loops):
     fn = chk.func(U.ADV, f"{CLS}.parallel_gradient")
     lp = loops[0]
-    t = src(lp).replace(" ", "").replace("\n", ";")
     # row i is interpolated, then for stencil entry j: evaluate at thetaVals[i, j, :], accumulate c_j * value into row (i - s_j)
-    ok = "self._interpolator.compute_interpolant(phi_r[i,:],self._thetaSpline)" in t and \
-        "forj,(s,c)inenumerate(zip(self._shifts,self._coeffs))" in t and \
-        "self._thetaSpline.eval_vector(thetaVals[i,j,:],tmp)" in t and "der[(i-s)%self._nz,:]+=c*tmp" in t
+    from ..core import find as _find
+    ok = _find(lp, """
+self._interpolator.compute_interpolant(phi_r[i, :], self._thetaSpline)
+for j, (s, c) in enumerate(zip(self._shifts, self._coeffs)):
+    self._thetaSpline.eval_vector(thetaVals[i, j, :], tmp)
+    der[(i - s) % self._nz, :] += c * tmp
+""") is not None
     chk.ob("F7-gradient-formula", lp, "der[(i - s_j) % nz] += c_j * S_i(thetaVals[i, j])", ok,
            "der[k] = sum_j c_j * (theta-spline of row k + s_j)(theta shifted along the field line by s_j cells): shift, "
            "coefficient and angle column carry the same j" if ok else "accumulation statement changed", file=U.ADV,
